@@ -70,6 +70,32 @@ CLAIMED: dict[str, tuple[str, str, str, str, str]] = {
         "Trusted: TLC; Python equality between delivered and sent packet (computed by the harness, asserted by the spec). cbor/msgpack are not "
         "importable offline and therefore not exercised.",
     ),
+    "C10": (
+        "model_checking",
+        "TLA+ spec RecvCancel (StreamReaderBufferedProtocol receive paths + event-loop iteration structure) model-checked by TLC for byte "
+        "conservation; every edge of the TLC state graph realised on the real protocol/selector transport by stepping a real event loop one "
+        "iteration at a time (cancellation placed before/after the read-ready handle, poll gated), state compared after each iteration; upper "
+        "receive layers under seeded cancellation schedules validated by TLC against StreamAbsTrace",
+        "DESIGN.md section 6 (C10)",
+        "TLC enumerates every relative order of {data callback, cancellation request, task wake-up} within and across loop iterations and "
+        "every cut of the stream at the cancellation; the real code is driven through an edge-covering set of exactly those schedules and must "
+        "agree with the model (delivered bytes, protocol buffer, kernel buffer, outcomes) after every iteration; conservation is re-checked by "
+        "draining the connection.",
+        "Trusted: TLC; CPython's selector event loop ordering (I/O handles before due timers, FIFO ready queue) which the harness steps with "
+        "loop._run_once(); the virtual-time selector of the harness. Bounds: 4-5 bytes, caller buffer of 2, 3-4 receive calls, 2 cancellations.",
+    ),
+    "C16": (
+        "model_checking",
+        "TLA+ spec DatagramServer (_ClientData queue/state machine, per-datagram tasks, handler generators, done-hook restart, timeouts) "
+        "model-checked by TLC (safety + liveness); hook logs of the real AsyncDatagramServer under seeded random schedules validated by TLC "
+        "against DatagramServerTrace (unlogged steps inferred as silent actions; _ClientData.state and queue length bound at every event)",
+        "DESIGN.md section 7 (C16)",
+        "TLC explores all interleavings of arrivals, pushes, generator progress/completion/timeouts for one address (addresses are independent "
+        "by construction) and proves per-address FIFO exactly-once, one active generator, unreachable inconsistent state and eventual handling; "
+        "the code is bound by trace validation in which the real object's state must equal the model's at every logged event.",
+        "Trusted: TLC; in-memory listener starting one task per datagram in arrival order. Bounds: 4-5 datagrams per address (model), 1-3 addresses x "
+        "1-5 datagrams (traces).",
+    ),
 }
 
 NOT_YET = "check not built yet in this revision of /verif (planned: see DESIGN.md section 0); not claimed until its check exists"
